@@ -911,10 +911,10 @@ M('from_tb_f_lineno', 'C16', TB,
   """        func_name = tb.tb_frame.f_code.co_name
         lineno = tb.tb_frame.f_lineno""")
 M('frames_limit', 'C16', TB,
-  """        while tb is not None and n < limit:
+  """        while tb is not None and (limit is None or n < limit):
             item = cls.callpoint_type.from_tb(tb)
             ret.append(item)""",
-  """        while tb is not None and n < min(limit, 9):
+  """        while tb is not None and n < min(limit or 9, 9):
             item = cls.callpoint_type.from_tb(tb)
             ret.append(item)""")
 M('exc_msg_repr', 'C16', TB,
@@ -1000,43 +1000,44 @@ M('with_delimiter_rbuf', 'C12', SO,
 FI = 'boltons/fileutils.py'
 # ---------------------------------------------------------------- C04
 M('no_fsync', 'C04', FI,
-  """            self.part_file.flush()
-            os.fsync(self.part_file.fileno())
-            self.part_file.close()""",
-  """            self.part_file.flush()
-            self.part_file.close()""")
-M('no_flush_before_fsync', 'C04', FI,
-  """            self.part_file.flush()
-            os.fsync(self.part_file.fileno())
-            self.part_file.close()""",
-  """            os.fsync(self.part_file.fileno())
-            self.part_file.close()""")
-M('fsync_only_small', 'C04', FI,
-  """            os.fsync(self.part_file.fileno())
-            self.part_file.close()""",
-  """            if self.part_file.tell() < 70000:
+  """                self.part_file.flush()
                 os.fsync(self.part_file.fileno())
-            self.part_file.close()""")
+                self.part_file.close()
+            except Exception:""",
+  """                self.part_file.flush()
+                self.part_file.close()
+            except Exception:""")
+M('no_flush_before_fsync', 'C04', FI,
+  """                self.part_file.flush()
+                os.fsync(self.part_file.fileno())
+                self.part_file.close()
+            except Exception:""",
+  """                os.fsync(self.part_file.fileno())
+                self.part_file.close()
+            except Exception:""")
+M('fsync_only_small', 'C04', FI,
+  """                os.fsync(self.part_file.fileno())
+                self.part_file.close()
+            except Exception:""",
+  """                if self.part_file.tell() < 70000:
+                    os.fsync(self.part_file.fileno())
+                self.part_file.close()
+            except Exception:""")
 M('rename_before_close', 'C04', FI,
   """        if self.part_file:
-            # Ensure data is flushed and synced to disk before closing
-            self.part_file.flush()
-            os.fsync(self.part_file.fileno())
-            self.part_file.close()
-        if exc_type:""",
-  """        if self.part_file and exc_type:
-            self.part_file.close()
-        if self.part_file and not exc_type and self.overwrite:
+            try:
+                # Ensure data is flushed and synced to disk before closing
+                self.part_file.flush()""",
+  """        if self.part_file and not exc_type and self.overwrite:
             atomic_rename(self.part_path, self.dest_path, overwrite=True)
             self.part_file.flush()
             os.fsync(self.part_file.fileno())
             self.part_file.close()
             return
-        elif self.part_file and not exc_type:
-            self.part_file.flush()
-            os.fsync(self.part_file.fileno())
-            self.part_file.close()
-        if exc_type:""")
+        if self.part_file:
+            try:
+                # Ensure data is flushed and synced to disk before closing
+                self.part_file.flush()""")
 M('copy_instead_of_rename', 'C04', FI,
   """        if overwrite:
             os.rename(src, dst)
